@@ -145,7 +145,7 @@ class MixRunner(object):
       if op[0] == "drop":
         if self.der is None: self._derive("iter")
         self.sm = None
-        if len(op) < 2 or op[1]: gc.collect()
+        if len(op) < 2 or op[1]: gc.collect(1)   # young generations: the object under test was created within this case
         return None
       if op[0] == "add":
         o = op[3] if len(op) > 3 else {}
@@ -203,7 +203,7 @@ class CtlRunner(object):
     if op[0] == "drop":
       if self.der is None: self.der, self.unext = derive(self.al, "iter", self.cs)
       self.cs = None
-      if len(op) < 2 or op[1]: gc.collect()
+      if len(op) < 2 or op[1]: gc.collect(1)   # young generations: the object under test was created within this case
       return None
     src = self.cs if self.der is None else self.der
     v = next(src) if (self.unext and self.der is not None) else src.take()
